@@ -170,7 +170,10 @@ func (c *syncMap) Walk(walkFn func(e Entry) error) (int, error) {
 	var lastErr error
 
 	c.data.Range(func(key, value interface{}) bool {
-		err := walkFn(value.(*TraitEntry))
+		v := value.(*TraitEntry) //nolint // Panic on type assertion failure is fine here.
+
+		// Passing a copy, entry can be updated (expired, served) concurrently with walkFn.
+		err := walkFn(TraitEntry{K: v.K, V: v.V, E: atomic.LoadInt64(&v.E), C: atomic.LoadInt64(&v.C)})
 		if err != nil {
 			lastErr = err
 
